@@ -1355,14 +1355,16 @@ class Interp(object):
     # calls
     # ------------------------------------------------------------------------------------------
 
-    def eval_args(self, node, fr, pc):
+    def eval_args(self, node, fr, pc, starred=None):
+        """starred: pre-evaluated values for the starred arguments (by position in node.args)"""
         args = []
-        for a in node.args:
+        for i, a in enumerate(node.args):
             if isinstance(a, ast.Starred):
-                it = self.ev(a.value, fr, pc)
+                it = starred[i] if starred is not None and i in starred else self.ev(a.value, fr, pc)
                 for pres, v in self.iter_items(it, fr, pc):
                     if pres is not self.vc.CT and not self.vc.c_is_true(pres):
-                        raise Unsupported("starred call argument with optional elements")
+                        if not self.vc.c_is_false(self.vc.c_and(pc, self.vc.c_not(pres))):
+                            raise Unsupported("starred call argument with optional elements")
                     args.append(v)
             else:
                 args.append(self.ev(a, fr, pc))
@@ -1373,14 +1375,35 @@ class Interp(object):
             kwargs[k.arg] = self.ev(k.value, fr, pc)
         return args, kwargs
 
-    def ex_Call(self, node, fr, pc):
+    def ex_Call(self, node, fr, pc, starred=None):
         f = node.func
+        if starred is None and any(isinstance(a, ast.Starred) for a in node.args):
+            # a starred argument that is a union of sequences: the call is made per alternative
+            pre = {}
+            split = None
+            for i, a in enumerate(node.args):
+                if isinstance(a, ast.Starred):
+                    v = self.ev(a.value, fr, pc)
+                    pre[i] = v
+                    if type(v) is U and split is None:
+                        split = i
+            if split is None:
+                return self.ex_Call(node, fr, self.live(fr, pc), starred=pre)
+            outs = []
+            for g, leaf in pre[split].alts:
+                apc = self.live(fr, self.vc.c_andg(pc, g))
+                if self.vc.c_is_false(apc):
+                    continue
+                p2 = dict(pre)
+                p2[split] = leaf
+                outs.append((g, self.ex_Call(node, fr, apc, starred=p2)))
+            return self.vc.mk_union(outs, sweep=False)
         if isinstance(f, ast.Attribute):
             recv = self.ev(f.value, fr, pc)
-            args, kwargs = self.eval_args(node, fr, pc)
+            args, kwargs = self.eval_args(node, fr, pc, starred)
             return self.call_method(recv, f.attr, args, kwargs, fr, self.live(fr, pc))
         fv = self.ev(f, fr, pc)
-        args, kwargs = self.eval_args(node, fr, pc)
+        args, kwargs = self.eval_args(node, fr, pc, starred)
         return self.call(fv, args, kwargs, self.live(fr, pc))
 
     def call_method(self, recv, name, args, kwargs, fr, pc):
